@@ -125,6 +125,12 @@ def oracle(script: dict, run: Any) -> List[Violation]:
         now = from_us(now_us)
         if off is not None and "zone" in off and not zones_agree(off["zone"], now):
             continue
+        if len(task.cron.split(" ")) != 5:
+            # an unparsable expression (wrong number of fields): get_task_delay reports it by raising ValueError, the loop skips it
+            if res != ("raise", "ValueError"):
+                out.append(Violation("C13/wrong-due-in-loop", f"loop evaluated the unparsable expression '{task.cron}': get_task_delay={res!r}, expected ValueError"))
+                break
+            continue
         want = 0 if cron_matches(task.cron, shifted(now, off)) else None
         if res != want:
             out.append(Violation("C13/wrong-due-in-loop", f"loop evaluated '{task.cron}' offset {off} at {now.isoformat()}: get_task_delay={res!r}, reference={want!r}"))
